@@ -435,7 +435,7 @@ def evaluate(chk, v, suffixes):
 
 def rotated_testvector_by_interpretation(chk, v, g, suffix):
     """tfhe_blindRotateAndExtract*: the polynomial handed to tLweNoiselessTrivial must be X^(-barb)*v mod X^N+1.  The function is
-    interpreted for N in 1..4 and every barb in [0, 2N) with v's coefficients as indeterminates (sa/concrete.PolyState); the library's
+    interpreted for N in {1, 2, 4, 8, 16} and every barb in [0, 2N) with v's coefficients as indeterminates (sa/concrete.PolyState); the library's
     own monomial multiplication and copy act by their specification (C11.R1).  -> None or a witness"""
     from sa import concrete, symexec
     gres, gv, gbk, gbarb, gbara, gn, gpar = [p["n"] for p in g.params]
@@ -443,7 +443,7 @@ def rotated_testvector_by_interpretation(chk, v, g, suffix):
     BARB = sym.sym(gbarb)
     effs = symexec.run_function(v, g, hooks=NOINLINE)[0]
     coef = lambda poly, i_: concrete.lvalue_location(sym.idx(sym.arrow(poly, "coefsT"), I(i_)), {})
-    for nv in (1, 2, 3, 4, 5, 6, 8, 9):
+    for nv in (1, 2, 4, 8, 16):           # the ring degrees a back-end can support are powers of two (index masks `& (N-1)` are legitimate here)
         for b in range(2 * nv):
             st = concrete.PolyState()
             seen = []
